@@ -48,8 +48,18 @@ def main():
             print(json.dumps({"error": list(map(str, canon.classify_exception(r[1])))}))
             continue
         d, content = c13.snapshot(r[1])
-        print(json.dumps({"dumps": d, "content": content, "pairing": pairing(r[1]),
-                          "parameters": sorted(r[1].parameters), "modes": sorted(str(m) for m in r[1].modes)}))
+        out = {"dumps": d, "content": content, "pairing": pairing(r[1]),
+               "parameters": sorted(r[1].parameters), "modes": sorted(str(m) for m in r[1].modes)}
+        if r[1].is_template() and not any("_" in n and n.rsplit("_", 2)[-1].isdigit() for n in r[1].parameters):
+            # the instance carries copies of the template's register transforms: they stay paired too
+            with core.quiet():
+                try:
+                    q = r[1](**{n: 0.5 + 0.25 * k for k, n in enumerate(sorted(r[1].parameters))})
+                    out["pairing_of_instance"] = pairing(q)
+                    out["instance"] = c13.snapshot(q)[1]
+                except Exception as e:  # noqa: BLE001
+                    out["pairing_of_instance"] = "raises " + type(e).__name__
+        print(json.dumps(out))
 
 
 if __name__ == "__main__":
